@@ -595,7 +595,9 @@ fn generate(suite: &str, seed: u64, n: usize, out: &mut dyn Write) {
                     4 => "remote=S:A,remote=S:b~B".to_string(),
                     _ => "none".to_string(),
                 };
-                let types = ["f32", "f64", "u8", "i16", "i32", "u32", "glam~Vec2", "Option<f32>"];
+                // (the last three are other spellings a type can reach the macro in: parenthesised, a qualified primitive path,
+                // a type macro — all transparent to rustc, none of them a reason to reject or to treat the field differently)
+                let types = ["f32", "f64", "u8", "i16", "i32", "u32", "glam~Vec2", "Option<f32>", "(f32)", "core~primitive~u8", "my_ty!()"];
                 let nf = 1 + r.below(6) as usize;
                 let mark_mode = r.below(3);
                 // field names: mostly f0..f5; sometimes names that collide with what the derive generates (`t_<field>`
@@ -615,6 +617,7 @@ fn generate(suite: &str, seed: u64, n: usize, out: &mut dyn Write) {
                     }
                 };
                 let same_type = if odd_names && r.chance(1, 2) { Some(r.pick(&types[..6])) } else { None };
+                let types = if r.chance(1, 6) { &types[..] } else { &types[..8] };
                 let fields: Vec<String> = (0..nf).map(|k| format!("{}:{}:{}", name_of(&mut r, k), same_type.unwrap_or_else(|| r.pick(&types)), { let m = if mark_mode == 0 { "n" } else if mark_mode == 1 { "a" } else if r.chance(1, 2) { "a" } else { "n" };
                     if r.chance(1, 4) { if m == "a" { "A" } else { "N" } } else { m } })).collect();
                 writeln!(out, "mderive {} {} {} {} {}", vis, kind, name, attrs.replace("~", "::"), fields.join(" ")).unwrap();
